@@ -5,6 +5,7 @@ from authlib.common.urls import url_decode
 from authlib.common.urls import urlparse
 
 from .errors import InsecureTransportError
+from .errors import InvalidRequestError
 
 
 class OAuth2Request:
@@ -26,11 +27,17 @@ class OAuth2Request:
 
         self._parsed_query = None
 
+    def _parse_query(self):
+        if self._parsed_query is None:
+            try:
+                self._parsed_query = url_decode(urlparse.urlparse(self.uri).query)
+            except ValueError as exc:
+                raise InvalidRequestError("Malformed query string") from exc
+        return self._parsed_query
+
     @property
     def args(self):
-        if self._parsed_query is None:
-            self._parsed_query = url_decode(urlparse.urlparse(self.uri).query)
-        return dict(self._parsed_query)
+        return dict(self._parse_query())
 
     @property
     def form(self):
@@ -48,10 +55,8 @@ class OAuth2Request:
         """Return all the data in query parameters and the body of the request as a dictionary
         with all the values in lists.
         """
-        if self._parsed_query is None:
-            self._parsed_query = url_decode(urlparse.urlparse(self.uri).query)
         values = defaultdict(list)
-        for k, v in self._parsed_query:
+        for k, v in self._parse_query():
             values[k].append(v)
         for k, v in self.form.items():
             values[k].append(v)
